@@ -93,9 +93,67 @@ def make_cases(hists: list[dict], tier: str, seed: int) -> tuple[list[dict], int
     return cases, discards
 
 
+def parse_npath(text: str):
+    """(sel, names) of an NPath text, or None when malformed (same rules as spec/NixText.tla)."""
+    sel = len(text) - len(text.lstrip("@"))
+    rest = text[sel:]
+    if not rest:
+        return None
+    segs, buf, q, mode = [], [], False, "bare"
+    for ch in rest:
+        if mode == "bare":
+            if ch == ".":
+                if (not q and not buf) or (not q and not _NPATH_BARE.match("".join(buf))):
+                    return None
+                segs.append("".join(buf)); buf, q = [], False
+            elif ch == '"':
+                if buf:
+                    return None
+                mode = "quoted"
+            else:
+                buf.append(ch)
+        elif mode == "quoted":
+            if ch == '"':
+                mode, q = "bare", True
+            elif ch == "\\":
+                mode = "escape"
+            else:
+                buf.append(ch)
+        else:
+            buf.append({"n": "\n", "r": "\r", "t": "\t"}.get(ch, ch if ch in '"\\' else "\\" + ch))
+            mode = "quoted"
+    if mode != "bare" or (not q and (not buf or not _NPATH_BARE.match("".join(buf)))):
+        return None
+    segs.append("".join(buf))
+    return sel, segs
+
+
+def suite_cases(start_id: int) -> list[dict]:
+    """The set_value / remove_value calls the repository's own tests make, as one-step histories (already executed)."""
+    from .mapping import val_of
+    from .suite import record
+    _, edits = record()
+    out = []
+    for e in edits:
+        np_ = parse_npath(e.get("npath") or "")
+        if np_ is None or not isinstance(e.get("pre"), str) or not isinstance(e.get("post"), str):
+            continue
+        v = val_of(e["value"]) if e["ev"] == "set" and isinstance(e.get("value"), str) else {"k": "int", "v": 0}
+        if v.get("k") == "none":
+            continue
+        op = {"f": e["ev"], "sel": np_[0], "path": np_[1], "v": v, "npath": e["npath"], "vtext": e.get("value", "")}
+        step = {"res": e["res"], "cur": e["post"], "again": e["post"], "same_snap": True}
+        if e["res"] == "ok":
+            step["ret"] = e["post"]
+        out.append({"id": start_id + len(out), "text": e["pre"], "wrap": ["suite"], "ops": [op], "suite": True,
+                    "r": {"text0": e["pre"], "steps": [step]}})
+    return out
+
+
 def execute(cases: list[dict]) -> None:
-    res = pmap("harness.impl", "run_history", [{"text": c["text"], "ops": c["ops"]} for c in cases], chunk=100)
-    for c, r in zip(cases, res):
+    todo = [c for c in cases if "r" not in c]
+    res = pmap("harness.impl", "run_history", [{"text": c["text"], "ops": c["ops"]} for c in todo], chunk=100)
+    for c, r in zip(todo, res):
         c["r"] = r
 
 
@@ -127,6 +185,11 @@ def region_ok(pre: str, post: str, f: str, res_kind: str) -> bool:
 
 
 def path_class(items: list, path: list[str]) -> str:
+    # one root written BOTH as an explicit binding and through attrpath entries (m = { .. }; m.b = ..;)
+    if any(x["k"] == "b" and x["ap"] == path[:1] for x in items) and \
+            any(x["k"] == "b" and len(x["ap"]) > 1 and x["ap"][0] == path[0] for x in items):
+        rest = [x for x in items if not (x["k"] == "b" and len(x["ap"]) > 1 and x["ap"][0] == path[0])]
+        return "mixed_root>" + path_class(rest, path)
     for x in items:
         if x["k"] == "b" and x["ap"] == path:
             base = "attrpath_leaf" if len(x["ap"]) > 1 else "leaf"
